@@ -115,8 +115,8 @@ CLAIMS = {
             "C01_decode_bytes_no_error). Termination (T01g): the theta loop runs at most once for atan2 in [-pi,pi]; in "
             "exact arithmetic the Bezier subdivision finishes within 2^(d+1) iterations when the second differences are "
             "bounded by 4^d/2 (the 2^20 fuel covers 4^19/2); for IEEE arithmetic PROVED for n control points with finite "
-            "coordinates within +-2^E and n*2^E <= 2^21 (C01_T01g_ieee_bounded, C01_T01g_curve_bounded: binary32 error "
-            "analysis through Flocq; e.g. <= 512 control points within +-4096, <= 16 within +-131072, <= 8 anywhere in the "
+            "coordinates within +-2^E and n*2^E <= 2^22 (C01_T01g_ieee_bounded, C01_T01g_curve_bounded: binary32 error "
+            "analysis through Flocq; e.g. <= 1024 control points within +-4096, <= 32 within +-131072, <= 16 anywhere in the "
             "parser's range), PARTIAL beyond (more "
             "control points far from the origin: no failing segment found, probes/T01g_search); "
             "refuted without a coordinate bound (finding D25: an infinite or overflowing control point never becomes flat, "
